@@ -22,7 +22,13 @@ if [ "$REPO" != "/repo" ]; then
   BIN="$ROOT/build/mod-$tag/$id"
 fi
 export VERIF_REPO_DIR="$REPO"
-( cd "$ROOT/mc" && go build $MODFLAG -tags verif -o "$BIN" "./checks/$id" ) || { echo "INFRASTRUCTURE ERROR: build of check $ID failed (does $REPO compile?)"; exit 2; }
+if [ -x "$ROOT/mc/checks/$id/build.sh" ]; then
+  # checks that need a special build (source instrumentation, overlays) provide their own builder:
+  # build.sh <repo-dir> <output-binary>; must rebuild from <repo-dir>'s current working tree.
+  "$ROOT/mc/checks/$id/build.sh" "$REPO" "$BIN"
+else
+  ( cd "$ROOT/mc" && go build $MODFLAG -tags verif -o "$BIN" "./checks/$id" )
+fi || { echo "INFRASTRUCTURE ERROR: build of check $ID failed (does $REPO compile?)"; exit 2; }
 if [ "${1:-}" = "--replay" ]; then
   exec "$BIN" -replay "$2"
 fi
